@@ -26,12 +26,14 @@ Fixpoint forall2b {A B} (p : A -> B -> bool) (xs : list A) (ys : list B) : bool 
   end.
 
 Definition scale_model_ok (t0 : tree) (steps : list (Q * tree)) : bool :=
-  tree_constructedb t0 && tree_wfb t0 && forall2b tree_approx (scan t0 (map fst steps)) (map snd steps).
+  tree_constructedb t0 && tree_wfb t0 && tree_domb t0 && forall2b tree_approx (scan t0 (map fst steps)) (map snd steps).
 
 Definition scale_spec_ok (t0 : tree) (steps : list (Q * tree)) : bool :=
   (* factor 1 restores the constructed parameters, factor 0 gives the weakest setting *)
   forallb (fun '(f, o) => (if Qeq_bool f 1 then tree_approx o t0 else true) &&
                           (if Qeq_bool f 0 then tree_weakestb o else true)) steps &&
+  (* every range the sampling draws from is a range (lb <= ub, min <= magnitude <= max), exactly *)
+  tree_orderedb t0 && forallb (fun '(_, o) => tree_orderedb o) steps &&
   (* equal factors give equal parameters whatever came in between *)
   forallb (fun '(f, o) => forallb (fun '(g, p) => if Qeq_bool f g then tree_approx o p else true) steps) steps &&
   (* every bound at factor f lies between its value at 0 and its value at g >= f *)
